@@ -570,6 +570,86 @@ func singleAssignment(b ssa.Value) ssa.Value {
 	return nil
 }
 
+// paramSpill: al is a parameter moved to the heap because a function literal reads it — assigned once (from the
+// parameter, on entry) and afterwards only read, here and in the literals that capture it.
+func paramSpill(al *ssa.Alloc) *ssa.Parameter {
+	if al.Referrers() == nil {
+		return nil
+	}
+	onlyReads := func(v ssa.Value) bool {
+		refs := v.Referrers()
+		if refs == nil {
+			return true
+		}
+		for _, r := range *refs {
+			switch x := r.(type) {
+			case *ssa.UnOp, *ssa.DebugRef:
+			case *ssa.FieldAddr:
+				if x.Referrers() != nil {
+					for _, rr := range *x.Referrers() {
+						switch rr.(type) {
+						case *ssa.UnOp, *ssa.DebugRef:
+						default:
+							return false
+						}
+					}
+				}
+			case *ssa.Store:
+				if x.Addr != v {
+					return false
+				}
+			case *ssa.MakeClosure:
+			default:
+				return false
+			}
+		}
+		return true
+	}
+	if !onlyReads(al) {
+		return nil
+	}
+	var p *ssa.Parameter
+	n := 0
+	for _, r := range *al.Referrers() {
+		switch x := r.(type) {
+		case *ssa.Store:
+			n++
+			p, _ = x.Val.(*ssa.Parameter)
+		case *ssa.MakeClosure:
+			fn, ok := x.Fn.(*ssa.Function)
+			if !ok {
+				return nil
+			}
+			for i, bd := range x.Bindings {
+				if bd != ssa.Value(al) {
+					continue
+				}
+				if i >= len(fn.FreeVars) {
+					return nil
+				}
+				fv := fn.FreeVars[i]
+				if !onlyReads(fv) {
+					return nil
+				}
+				if refs := fv.Referrers(); refs != nil {
+					for _, fr := range *refs {
+						if _, isStore := fr.(*ssa.Store); isStore {
+							return nil
+						}
+						if _, isMC := fr.(*ssa.MakeClosure); isMC {
+							return nil // handed on to a nested literal: not followed
+						}
+					}
+				}
+			}
+		}
+	}
+	if n == 1 {
+		return p
+	}
+	return nil
+}
+
 func (w *World) callEnv(g *ssa.Function, call ssa.CallInstruction, up *env) *env {
 	cc := call.Common()
 	params := map[string]*Expr{}
@@ -584,6 +664,13 @@ func (w *World) callEnv(g *ssa.Function, call ssa.CallInstruction, up *env) *env
 				b := w.builderFor(al.Parent())
 				if !b.rd.captured[al] {
 					params[p.Name()] = up.apply(&Expr{Op: "ref", Args: []*Expr{b.rd.at(call, al, nil)}, V: al})
+					continue
+				}
+			}
+			if cv, ok := stripConv(args[i]).(*ssa.Call); ok && cv.Parent() != nil {
+				b := w.builderFor(cv.Parent())
+				if b.rd != nil && b.rd.trackedRecord(cv) != nil {
+					params[p.Name()] = up.apply(&Expr{Op: "ref", Args: []*Expr{b.rd.at(call, cv, nil)}, V: cv})
 					continue
 				}
 			}
